@@ -285,7 +285,9 @@ def run(tier):
             n += 1
             dat = t2dbuild.build(doc, flavour, rng)
             cycle(rep, tracer, work, dat, doc, stream, key, det)
-            has_mesh = "ELEME" in kinds and "CONNE" in kinds and not any(k in kinds for k in ("SHORT", "FOFT", "COFT", "GOFT"))
+            # SHORT resolves its entries against the grid while reading (no fall-back to names): it needs the mesh in the main
+            # file; FOFT / COFT / GOFT keep names when the mesh comes from a separate file
+            has_mesh = "ELEME" in kinds and "CONNE" in kinds and "SHORT" not in kinds
             if has_mesh and len(kinds) > 3:
                 dat = t2dbuild.build(doc, flavour, rng)
                 cycle(rep, tracer, work, dat, doc, None, key + ":MESH", dict(det, mesh="MESH file"), mesh="ascii")
